@@ -70,7 +70,9 @@ spec fn db_ok_for_writer(db: &DB) -> bool {
     &&& m0.freelist_page + page_view(db.inner.bytes(), m0.freelist_page as int, ps).overflow + 1 <= u64::MAX
     // every id the shared free list knows (free or pending) is a tree page below the header's high-water mark
     &&& forall|p: u64| f.free_pages@.contains(p) ==> 1 < p < m0.num_pages
-    &&& forall|b: u64, x: u64| #[trigger] released(f.pending_pages@, b, x) ==> 1 < x < m0.num_pages
+    &&& pend_in_range(f, m0.num_pages)
+    // the persisted free-list run lies below the high-water mark (it will join the pending pages at the next commit)
+    &&& m0.freelist_page + page_view(db.inner.bytes(), m0.freelist_page as int, ps).overflow + 1 <= m0.num_pages
     // the map covers the file (open maps the whole file, resize remaps it after every extension)
     &&& db.inner.bytes().len() >= db.inner.file.cur().len()
 }
